@@ -74,7 +74,8 @@ bool Normaliser::zeroModDenominators(Poly p) {
   }
   return false;
 }
-Poly Normaliser::atom(int t) { atoms++; if (C) { int ct = C->canon(t); if (ct != t) { const Term &y = TT.t[ct]; if (y.op == TT.OP_C) { Poly p; if (y.k) p[Mono()] = Q((long long)y.k); return p; } if (y.op == TT.OP_ADD || y.op == TT.OP_SUB || y.op == TT.OP_MUL) return norm(ct, false); /* the canonical form became an integer ring expression: expand it */ t = ct; } } Poly p; p[Mono{{t, 1}}] = Q(1); return p; }
+Poly Normaliser::atom(int t) { atoms++; if (C) { int ct = C->canon(t); if (ct != t) { const Term &y = TT.t[ct]; if (y.op == TT.OP_C) { Poly p; if (y.k) p[Mono()] = Q((long long)y.k); return p; } if (y.op == TT.OP_ADD || y.op == TT.OP_SUB || y.op == TT.OP_MUL) return norm(ct, false); /* the canonical form became an integer ring expression: expand it */
+  if (y.op == TT.OP_FNEG || y.op == TT.OP_FADD || y.op == TT.OP_FSUB || y.op == TT.OP_FMUL || y.op == TT.OP_FMA || y.op == TT.OP_FMULADD || y.op == TT.OP_FDIV) return norm(ct, true); /* e.g. a sign flip done with 64-bit integer instructions on a pair of floats: canonically fneg(...) */ t = ct; } } Poly p; p[Mono{{t, 1}}] = Q(1); return p; }
 
 static bool isSignMask(const Term &c, int bytes) { return c.op == TT.OP_C && ((bytes == 4 && (int32_t)c.k == INT32_MIN) || (bytes == 8 && c.k == INT64_MIN)); }
 static bool dyadic(double d, Q &out) {
@@ -641,7 +642,8 @@ bool evalReal(int t, int point, std::unordered_map<int, long double> &memo, long
   else if (op == "reduce.add" || op == "reduce.fadd") { for (size_t i = 0; i < v.size(); i++) { r += v[i]; er += e[i] + U * fabsl(r); } }
   else if (op == "reduce.mul" || op == "reduce.fmul") { r = 1; for (size_t i = 0; i < v.size(); i++) { er = fabsl(r) * e[i] + A((int)i) * er + er * e[i]; r *= v[i]; er += U * fabsl(r); } }
   else if (op.compare(0, 5, "libm.") == 0) { std::string f = libmBase(op); if (v.size() == 1) { if (!libm1(f, v[0], r)) return false; if (e[0] > 1e-12L * (1 + A(0))) return false; er = 16 * U * fabsl(r) + 1e3L * e[0]; } else if (v.size() == 2) { if (!libm2(f, v[0], v[1], r)) return false; if (e[0] + e[1] > 1e-12L * (1 + A(0) + A(1))) return false; er = 16 * U * fabsl(r) + 1e3L * (e[0] + e[1]); } else return false; }
-  else return false;
+  else if (x.op == TT.OP_XOR && x.a.size() == 2 && (isSignMask(TT.t[x.a[0]], x.bytes) || isSignMask(TT.t[x.a[1]], x.bytes))) { int o = isSignMask(TT.t[x.a[0]], x.bytes) ? 1 : 0; r = -v[o]; er = e[o]; } // sign flip of a floating-point value done with integer instructions
+  else { if (getenv("IRFLOW_DEBUG")) fprintf(stderr, "evalReal: no rule for %s\n", TT.str(t, 5).substr(0, 300).c_str()); return false; }
   if (!std::isfinite((double)r)) return false;
   er += U * fabsl(r);
   out = r; memo[t] = out; g_realErr[t] = er; return true;
